@@ -50,3 +50,32 @@ package shrex
 //@   callpre request).ResponseReader: $AccOpen && $MemHeld
 //@   ensures !$AccOpen && !$MemHeld
 //@   ensures result0 == statusBadRequest || result0 == statusReadReqErr ==> result1 == 0
+
+// ---------------------------------------------------------------------------------------------
+// C06 / C09: the client side of one request. The caller's container is decoded into only after the
+// server answered OK; success is reported only when that decoding succeeded; the server's NOT_FOUND is
+// reported as ErrNotFound and INTERNAL as ErrInternalServer - never as success and never as a corrupt
+// response; any other status is refused. $RespRead: the response was decoded without error.
+//@ extern (io.ReaderFrom).ReadFrom
+//@   effect $RespRead := err == nil
+
+//@ func (*Client).doRequest
+//@   property C06 C09
+//@   noframe
+//@   havoc $RespRead
+//@   callpre ReaderFrom).ReadFrom: statusResp.Status == shrexpb.Status_OK && $arg0 == resp
+//@   callpre WriterTo).WriteTo: $arg0 == req
+//@   ensures err == nil ==> $RespRead && result1 == statusSuccess
+//@   ensures result1 == statusSuccess ==> err == nil
+//@   ensures result1 == statusNotFound <==> err == ErrNotFound
+//@   ensures result1 == statusInternalErr <==> err == ErrInternalServer
+//@   checks err == ErrNotFound ==> statusResp.Status == shrexpb.Status_NOT_FOUND
+//@   checks err == ErrInternalServer ==> statusResp.Status == shrexpb.Status_INTERNAL
+//@   checks err == ErrInvalidRequest ==> statusResp.Status != shrexpb.Status_NOT_FOUND && statusResp.Status != shrexpb.Status_INTERNAL && statusResp.Status != shrexpb.Status_OK
+
+//@ func (*Client).Get
+//@   property C06 C09
+//@   noframe
+//@   havoc $RespRead
+//@   callpre Client).doRequest: $arg3 == req && $arg4 == resp && $arg5 == peer
+//@   ensures err == nil ==> $RespRead
